@@ -6,10 +6,11 @@ from vlib import drive, f2h, h2f, quiet
 
 SPEC = {
     "gen": ["Crystal"],
-    "modules": ["DiffcalcProofs.Props.C06"],
+    "modules": ["DiffcalcProofs.Props.C06", "DiffcalcProofs.Props.C06Angle"],
     "theorems": {"DiffcalcProofs.Props.C06": [
         "C06.Cell.B_closed", "C06.Cell.B_upper_pos", "C06.Cell.BtB_G", "C06.Cell.one_sub_x2_sq", "C06.Cell.sin_beta2",
-        "C06.planeDistance_eq", "C06.planeDistance_zero", "C06.cellForSystem_spec", "C06.callForms"]},
+        "C06.planeDistance_eq", "C06.planeDistance_zero", "C06.cellForSystem_spec", "C06.callForms"],
+        "DiffcalcProofs.Props.C06Angle": ["C06.Cell.Gstar_G", "C06.dot_B_B", "C06.norm_B", "C06.planeAngle_crystallographic"]},
     "level": "proof",
     "rule": "translation validation of the generated B matrix / cell tables and of the call-form model against Crystal(...) and "
             "UBCalculation.set_lattice(...) for random admissible cells in all seven systems, every accepted call form (six numbers, system + "
@@ -105,6 +106,17 @@ def correspondence(ctx):
             except ValueError:
                 d = ("valueError",)
             lines.append("cryst.dist " + " ".join(f2h(x) for x in Bm.flatten()) + " " + " ".join(f2h(x) for x in hkl)); checks.append(("res", d, hkl))
+            # interplanar angle (degrees): generic pairs, (anti)parallel pairs, a zero vector
+            ha = tuple(float(ctx.rng.randint(-3, 3)) for _ in range(3))
+            hb = ctx.rng.choice([tuple(float(ctx.rng.randint(-3, 3)) for _ in range(3)), tuple(2 * x for x in ha), tuple(-x for x in ha),
+                                 tuple(ctx.rng.uniform(-3, 3) for _ in range(3))])
+            try:
+                with np.errstate(all="ignore"):
+                    av = float(cr.get_hkl_plane_angle(ha, hb))
+                a_exp = ("nan",) if av != av else ("ang", av)
+            except AssertionError:
+                a_exp = ("assertion",)
+            lines.append("cryst.angle " + " ".join(f2h(x) for x in Bm.flatten()) + " " + " ".join(f2h(x) for x in ha + hb)); checks.append(("ang", a_exp, (ha, hb)))
     for sysw, nums in bad_forms(ctx.rng):
         try:
             crystal_of(((sysw,) if sysw != "-" else ()) + nums); exp = ("ok?",)
@@ -134,6 +146,18 @@ def correspondence(ctx):
                 ok = all(abs(h2f(t) - x) <= 1e-9 * (1 + abs(x)) for t, x in zip(a.split(" "), exp))
             except ValueError:
                 ok = False
+        elif kind == "ang":
+            if exp[0] == "ang":
+                # acos is ill-conditioned at 0 / 180 deg: compare the cosines there
+                try:
+                    mv = h2f(a.split(" ")[1]) if a.startswith("ok ") else None
+                except ValueError:
+                    mv = None
+                ok = mv is not None and mv == mv and (abs(mv - exp[1]) <= 1e-7 or abs(math.cos(math.radians(mv)) - math.cos(math.radians(exp[1]))) <= 1e-12)
+            elif exp[0] == "nan":
+                ok = (a.startswith("ok ") and h2f(a.split(" ")[1]) != h2f(a.split(" ")[1])) or a == "assertion"     # 0/0: NaN in numpy
+            else:
+                ok = a == exp[0]
         else:
             if exp[0] == "ok":
                 ok = a.startswith("ok ") and abs(h2f(a.split(" ")[1]) - exp[1]) <= 1e-9 * (1 + abs(exp[1]))
